@@ -4,7 +4,10 @@ package symgo
 // big.Float is ignored: listed assumption).
 
 import (
+	"fmt"
+	"go/token"
 	"go/types"
+	"math"
 	"math/big"
 
 	"golang.org/x/tools/go/ssa"
@@ -59,6 +62,9 @@ func (x *Exec) cmpTerms(a, b *Term) *Term {
 func (x *Exec) absInt(a *Term) *Term {
 	if a.IsConst() {
 		return x.ts.Int(new(big.Int).Abs(a.Big))
+	}
+	if a.Op == OIMod && a.A[1].IsConst() && a.A[1].Big.Sign() > 0 {
+		return a // Euclidean remainder is non-negative
 	}
 	return x.ts.Ite(x.ts.Cmp(OILt, a, x.ts.IntI(0)), x.ts.IBin(OISub, x.ts.IntI(0), a), a)
 }
@@ -419,7 +425,7 @@ func registerBig() {
 			f, _ := p.Rat.Float64()
 			return Tuple{FloatV{f}, x.ts.BV(0, 8)}
 		}
-		return Tuple{&RealV{p}, x.ts.BV(0, 8)}
+		return Tuple{&RealV{T: p}, x.ts.BV(0, 8)}
 	})
 	F("Uint64", func(x *Exec, fn *ssa.Function, a []Value) Value {
 		_, p := x.bigCell(a[0])
@@ -456,19 +462,107 @@ func registerBig() {
 	})
 }
 
-// RealV is a float64 value treated as an exact real (real relaxation; see DESIGN §3.3).
-type RealV struct{ T *Term }
+// RealV is a symbolic float64: T is the exact real value of the ideal computation, Err bounds |float64 value - T|
+// (accumulated rounding error, unit round-off 2^-53 per conversion and operation), Mag bounds |T|.  Only
+// non-negative values built from unsigned integers, +, and * or / by positive constants are supported; anything
+// else is an engine error (inconclusive), never a silent real relaxation.  Subnormals/overflow are outside the model
+// (all magnitudes here are far from both).
+type RealV struct {
+	T        *Term
+	Err, Mag *big.Rat
+}
+
+var fpUnit = new(big.Rat).SetFrac(big.NewInt(1), new(big.Int).Lsh(big.NewInt(1), 53))
 
 func (x *Exec) symIntToFloat(t *Term, signed bool) Value {
-	return &RealV{x.ts.Int2Real(x.ts.BV2Int(t, signed))}
+	if signed {
+		panic(x.errf("float64(symbolic signed integer) is not modelled"))
+	}
+	_, ihi := x.ts.Interval(t)
+	hi := new(big.Rat).SetInt(ihi)
+	err := new(big.Rat)
+	if hi.Cmp(new(big.Rat).SetInt(new(big.Int).Lsh(big.NewInt(1), 53))) > 0 {
+		err.Mul(hi, fpUnit)
+	}
+	return &RealV{T: x.ts.Int2Real(x.ts.BV2Int(t, false)), Err: err, Mag: hi}
+}
+
+func (x *Exec) floatAsReal(v Value) *RealV {
+	switch t := v.(type) {
+	case *RealV:
+		if t.Err == nil {
+			panic(x.errf("float64 arithmetic on a big.Float-derived symbolic value is not modelled"))
+		}
+		return t
+	case FloatV:
+		if t.F < 0 || math.IsNaN(t.F) || math.IsInf(t.F, 0) {
+			panic(x.errf("symbolic float arithmetic with negative/non-finite constant %v is not modelled", t.F))
+		}
+		r := new(big.Rat)
+		r.SetFloat64(t.F)
+		return &RealV{T: x.ts.Real(r), Err: new(big.Rat), Mag: r}
+	}
+	panic(x.errf("float operand %T", v))
+}
+
+// realBinop models one float64 operation on symbolic operands with a sound absolute error bound.
+func (x *Exec) realBinop(op token.Token, a, b Value) Value {
+	ra, rb := x.floatAsReal(a), x.floatAsReal(b)
+	add := func(p, q *big.Rat) *big.Rat { return new(big.Rat).Add(p, q) }
+	mul := func(p, q *big.Rat) *big.Rat { return new(big.Rat).Mul(p, q) }
+	var t *Term
+	var mag, err *big.Rat
+	switch op {
+	case token.ADD:
+		t = x.ts.RBin(ORAdd, ra.T, rb.T)
+		mag = add(ra.Mag, rb.Mag)
+		err = add(ra.Err, rb.Err)
+	case token.MUL, token.QUO:
+		_, bc := b.(FloatV)
+		_, ac := a.(FloatV)
+		if !bc && !(ac && op == token.MUL) {
+			panic(x.errf("symbolic float %s symbolic float is not modelled", op))
+		}
+		if op == token.QUO {
+			if rb.Mag.Sign() == 0 {
+				panic(x.errf("symbolic float division by zero constant"))
+			}
+			inv := new(big.Rat).Inv(rb.Mag)
+			t = x.ts.RBin(ORDiv, ra.T, rb.T)
+			mag = mul(ra.Mag, inv)
+			err = mul(ra.Err, inv)
+		} else {
+			t = x.ts.RBin(ORMul, ra.T, rb.T)
+			mag = mul(ra.Mag, rb.Mag)
+			err = add(mul(ra.Err, rb.Mag), mul(rb.Err, ra.Mag))
+		}
+	default:
+		panic(x.errf("symbolic float operation %s is not modelled", op))
+	}
+	// rounding of the result: |fl(v) - v| <= u*|v|, |v| <= mag + err
+	err = add(err, mul(fpUnit, add(mag, err)))
+	return &RealV{T: t, Err: err, Mag: mag}
 }
 
 func (x *Exec) convertReal(r *RealV, to types.Type) Value {
 	if isFloatT(to) {
+		if b, ok := to.Underlying().(*types.Basic); ok && b.Kind() == types.Float32 {
+			panic(x.errf("float32 conversion of symbolic float is not modelled"))
+		}
 		return r
 	}
 	if isIntT(to) {
-		return x.ts.Int2BV(x.ts.Floor(r.T), intWidth(to))
+		// truncation of the (non-negative) float value T+e, |e| <= Err, e an arbitrary real
+		v := r.T
+		if r.Err != nil && r.Err.Sign() != 0 {
+			x.fpErrN++
+			e := x.ts.Var(fmt.Sprintf("fperr%d", x.fpErrN), SReal, 0)
+			x.path = append(x.path, x.ts.Cmp(ORLe, x.ts.Real(new(big.Rat).Neg(r.Err)), e), x.ts.Cmp(ORLe, e, x.ts.Real(r.Err)))
+			v = x.ts.RBin(ORAdd, v, e)
+			// the float value itself is non-negative
+			x.path = append(x.path, x.ts.Cmp(ORLe, x.ts.Real(new(big.Rat)), v))
+		}
+		return x.ts.Int2BV(x.ts.Floor(v), intWidth(to))
 	}
 	panic(x.errf("convert real to %s", to))
 }
